@@ -675,3 +675,64 @@ count_n!(v5_count_31, V5, 48, 31);
 count_n!(v5_count_300, V5, 48, 300);
 count_n!(v7_count_31, V7, 52, 31);
 count_n!(v7_count_257, V7, 52, 257);
+
+/// C08 beyond the documented 30 records: a V5 structure with 31 records (count == 31) is
+/// exported in full - 24 + 48 * 31 bytes, count as given, the last record at its place.
+/// Records carry a concrete pattern (record k has source address k); the header is symbolic.
+fn pattern_v5_record(k: u32) -> v5::FlowSet {
+    v5::FlowSet {
+        src_addr: std::net::Ipv4Addr::from(k),
+        dst_addr: std::net::Ipv4Addr::from(0u32),
+        next_hop: std::net::Ipv4Addr::from(0u32),
+        input: 1,
+        output: 2,
+        d_pkts: 3,
+        d_octets: 4,
+        first: 5,
+        last: 6,
+        src_port: 7,
+        dst_port: 8,
+        pad1: 0,
+        tcp_flags: 9,
+        protocol_number: 6,
+        protocol_type: ProtocolTypes::from(6u8),
+        tos: 0,
+        src_as: 10,
+        dst_as: 11,
+        src_mask: 12,
+        dst_mask: 13,
+        pad2: 0,
+    }
+}
+
+#[kani::proof]
+#[kani::stub(core::fmt::write, no_fmt)]
+fn v5_export_31() {
+    const CNT: usize = 31;
+    let mut recs = Vec::with_capacity(CNT);
+    let mut k = 0usize;
+    while k < CNT {
+        recs.push(pattern_v5_record(k as u32));
+        k += 1;
+    }
+    let header = v5::Header {
+        version: 5,
+        count: CNT as u16,
+        sys_up_time: kani::any(),
+        unix_secs: kani::any(),
+        unix_nsecs: kani::any(),
+        flow_sequence: kani::any(),
+        engine_type: kani::any(),
+        engine_id: kani::any(),
+        sampling_interval: kani::any(),
+    };
+    let v = v5::V5 { header, flowsets: recs };
+    let out = v.to_be_bytes();
+    assert!(out.len() == 24 + 48 * CNT);
+    assert!(be16(&out, 2) == CNT as u16);
+    assert!(be32(&out, 4) == header.sys_up_time);
+    assert!(be32(&out, 24 + 48 * (CNT - 1)) == (CNT - 1) as u32);
+    assert!(be16(&out, 24 + 48 * (CNT - 1) + 12) == 1);
+    core::mem::forget(out);
+    core::mem::forget(v);
+}
